@@ -38,7 +38,8 @@ fn any_f(lo: F, hi: F) -> F {
 #[kani::proof_for_contract(round_up_to_half)]
 fn raster_round_up_to_half_contract() {
     let x: F = kani::any();
-    round_up_to_half(x);
+    let r = round_up_to_half(x);
+    assert!(is_round_up_to_half(x, r)); // explicit, for native replay (reached only under the precondition)
 }
 
 // @ob props=C02,C04 tier=quick kind=P cfg=core-std,core-none timeout=600
